@@ -68,4 +68,56 @@ def allOk4pi (t : Table) (L tolInv : Nat) : Bool := (monos L).all fun m => ok4pi
 def onSphere (t : Table) (tolInv : Nat) : Bool :=
   t.pts.all fun p => decide ((p.2.1 ^ 2 + p.2.2.1 ^ 2 + p.2.2.2 ^ 2 - (2 : Int) ^ (2 * t.kp)).natAbs * tolInv ≤ 2 ^ (2 * t.kp))
 
+/-! ### sliced evaluation (round 3)
+
+The same integer test organised so that the kernel reaches larger tables: the moments of one node are produced by
+iterated multiplication (`w x^a`, then `· y` per step of `b`, then `· z` per step of `c`: one multiplication per
+monomial instead of `a + b + c`), the lists of all nodes are added entry by entry, and the test is split by the first
+exponent `a` (`sliceOkUnit t L T a`, `sliceOk4pi t L T a`): the generated files state one kernel-decided theorem per
+slice, so that the kernel's memory is released in between.  `Props/C02/Slice.lean` proves that the slices together
+are `allOkUnit` / `allOk4pi`. -/
+
+/-- `[s, s m, s m², …]`, `n` entries. -/
+def geom (s m : Int) : Nat → List Int
+  | 0 => []
+  | n + 1 => s :: geom (s * m) m n
+
+/-- `s y^b z^c` for `b = 0 … n-1`, `c = 0 … n-1-b`, in the order of `sliceMonos n`. -/
+def goB (s y z : Int) : Nat → List Int
+  | 0 => []
+  | n + 1 => geom s z (n + 1) ++ goB (s * y) y z n
+
+/-- the exponent pairs `(b, c)` with `b + c < n`, `b` outer. -/
+def sliceMonos (n : Nat) : List (Nat × Nat) :=
+  (List.range n).flatMap fun b => (List.range (n - b)).map fun c => (b, c)
+
+/-- `w x^a y^b z^c` of one node for fixed `a` and all `(b, c)` of `sliceMonos n`. -/
+def nodeSlice (p : Int × Int × Int × Int) (a n : Nat) : List Int := goB (p.1 * p.2.1 ^ a) p.2.2.1 p.2.2.2 n
+
+/-- entrywise sum. -/
+def addL (u v : List Int) : List Int := List.zipWith (· + ·) u v
+
+/-- `moment t a b c` for all `(b, c)` of `sliceMonos n` (the start value is the slice of a zero node: a list of zeros). -/
+def sliceMoments (t : Table) (a n : Nat) : List Int :=
+  t.pts.foldl (fun acc p => addL acc (nodeSlice p a n)) (nodeSlice (0, 0, 0, 0) a n)
+
+/-- `okUnit` with the moment handed in. -/
+def okUnitM (t : Table) (tolInv a b c : Nat) (m : Int) : Bool :=
+  decide ((m * (meanDen a b c : Int) - (meanNum a b c : Int) * (scale t a b c : Int)).natAbs * tolInv
+    ≤ meanDen a b c * scale t a b c)
+
+/-- `ok4pi` with the moment handed in. -/
+def ok4piM (t : Table) (tolInv a b c : Nat) (m : Int) : Bool :=
+  decide ((m * ((meanDen a b c * fourPiDen : Nat) : Int)
+      - ((meanNum a b c * fourPiNum : Nat) : Int) * (scale t a b c : Int)).natAbs * tolInv
+    ≤ meanDen a b c * fourPiDen * scale t a b c)
+
+/-- all monomials `x^a y^b z^c`, `a` fixed, `a + b + c ≤ L`, weights normalised to one. -/
+def sliceOkUnit (t : Table) (L tolInv a : Nat) : Bool :=
+  ((sliceMoments t a (L + 1 - a)).zip (sliceMonos (L + 1 - a))).all fun q => okUnitM t tolInv a q.2.1 q.2.2 q.1
+
+/-- all monomials `x^a y^b z^c`, `a` fixed, `a + b + c ≤ L`, weights summing to `4π`. -/
+def sliceOk4pi (t : Table) (L tolInv a : Nat) : Bool :=
+  ((sliceMoments t a (L + 1 - a)).zip (sliceMonos (L + 1 - a))).all fun q => ok4piM t tolInv a q.2.1 q.2.2 q.1
+
 end GridVerif.SphereQuad
